@@ -269,7 +269,7 @@ func init() {
 			if out[0] != implW || strings.Join(mt, " ") != implT || out[2] != implE {
 				rep.Divergences = append(rep.Divergences, &Divergence{Scenario: fmt.Sprintf("C06-batch-%d", b), What: "batchIntoBuffer vs Batched.assign",
 					Impl: implW + " | " + implT + " | " + implE, Model: out[0] + " | " + strings.Join(mt, " ") + " | " + out[2], Script: append([]string{}, d.Script[len(d.Script)-1:]...)})
-				if len(rep.Divergences) > 3 {
+				if enoughDivergences(rep, 3) {
 					break
 				}
 				continue
